@@ -168,7 +168,7 @@ class UnitStore(object):
         # To test if this is a dimensionless unit, parse the string as a Quantity and check if it's dimensionless
         quantity = self._registry.parse_expression(expression)
         if quantity.units == self._registry.dimensionless:
-            definition = UnitDefinition(qname, '', (), ScaleConverter(quantity.to(self._registry.dimensionless)))
+            definition = UnitDefinition(qname, '', (), ScaleConverter(quantity.to(self._registry.dimensionless).magnitude))
         else:
             definition = qname + '=' + expression
 
